@@ -248,23 +248,33 @@ def export_tags(routine, ids):
     return out
 
 
-def opt_model(optspec):
+def opt_model(optspec, key="tilesize"):
     """options spec -> model (size, extraKey) or None when outside the model (non-dict options)"""
     if optspec is None:
         return "absent", False
     if not isinstance(optspec, dict):
         return None
-    extra = any(k != "tilesize" for k in optspec)
-    if "tilesize" not in optspec:
+    extra = any(k != key for k in optspec)
+    if key not in optspec:
         return "absent", extra
-    v = optspec["tilesize"]
+    v = optspec[key]
     return (["int", int(v)] if isinstance(v, int) else "other"), extra
 
 
-def case_tiling(prog, path, optspec):
+TILE_KINDS = {"tile": ("LoopTiling2DTrans", "tilesize"), "chunk": ("ChunkLoopTrans", "chunksize"),
+              "swap": ("LoopSwapTrans", None)}
+
+
+def case_tiling(prog, path, optspec, kind="tile"):
     from psyclone.psyir.nodes import Loop, Routine
-    from psyclone.psyir.transformations import LoopTiling2DTrans
-    om = opt_model(optspec)
+    cname, key = TILE_KINDS[kind]
+    trans_cls = S.trans_by_name(cname)
+    if key is None:
+        if optspec not in (None, {}):
+            return None
+        om = ("absent", False)
+    else:
+        om = opt_model(optspec, key)
     if om is None:
         return None
     tree = prog.fresh()
@@ -281,7 +291,7 @@ def case_tiling(prog, path, optspec):
     bound = ids.bound
     before = S.snapshot(tree)
     parent, pos = node.parent, node.position
-    out = _apply(LoopTiling2DTrans(), (node,), S.real_options(optspec))
+    out = _apply(trans_cls(), (node,), S.real_options(optspec))
     if out.startswith("error"):
         return None
     after = S.snapshot(tree)
@@ -291,7 +301,7 @@ def case_tiling(prog, path, optspec):
         nest2 = export_stmts([parent.children[pos]], ids, rt.symbol_table)
     except OutsideModel:
         return None
-    return {"line": sx(["tile", ["opt", om[0], om[1]], ["tab", bound, tags], nest]),
+    return {"line": sx([kind, ["opt", om[0], om[1]], ["tab", bound, tags], nest]),
             "impl": sx([1 if out == "accepted" else 0, ids.bound, nest2]),
             "changed": before != after, "refused": out == "refused",
-            "desc": ["LoopTiling2DTrans", path, optspec]}
+            "desc": [cname, path, optspec]}
